@@ -15,19 +15,20 @@ THEOREMS = ['C10_cc_wu_bin_eq_bu', 'C10_cc_wd_bin_eq_bd', 'C10_trans_wu_bin_eq_b
             'C10_cc_bd_sym_eq_bu', 'C10_cc_wd_sym_eq_wu', 'C10_trans_bd_sym_eq_bu', 'C10_trans_wd_sym_eq_wu',
             'C10_cbrt_exact_ok_binary', 'C10_strengths_bin_eq_degrees', 'C10_in_out_deg_sym', 'C10_degrees_ignore_weights',
             'C10_distance_wei_bin_eq_bin', 'C10_efficiency_wei_bin_eq_bin', 'C10_efficiency_local_wei_bin_eq_bin',
-            'C10_efficiency_local_cbrt_exact', 'C10_assortativity_wei_bin_eq_bin', 'C10_assortativity_bin_ignores_nonneg_weights',
-            'C10_assortativity_bin_ignores_weights_refuted',
+            'C10_efficiency_local_cbrt_exact', 'C10_assortativity_wei_bin_eq_bin', 'C10_assortativity_bin_ignores_weights',
             'C10_density_ignores_weights', 'C10_jdegree_ignores_weights', 'C10_edge_nei_overlap_ignores_weights',
             'C10_findwalks_reachdist_ignore_weights', 'C10_distance_efficiency_bin_ignore_weights']
 RULE = ('pairs of public functions evaluated on the same matrix: all undirected 0/1 graphs n<=4 (quick) / n<=5 (thorough), all '
         'digraphs n<=3 / n<=4, random 0/1 graphs and symmetric weighted graphs n<=8 (weights m^3/512), disconnected graphs, '
         'isolated nodes; weighted (directed and undirected, weights k/8 and >1) vs binarised input for the routines whose '
-        'docstring says weights are ignored/discarded; non-trivial = the matrix has at least one edge; distinct by hash of '
+        'docstring says weights are ignored/discarded; symmetric weights of both signs (random + every sign pattern on K3 and K4-e) for the '
+        'directed = undirected clause; every documented spelling of `local` (False, True, \'global\', \'local\', \'original\') of efficiency_wei / '
+        'efficiency_bin on 0/1 input, shape and value against a brute-force BFS oracle; non-trivial = the matrix has at least one edge; distinct by hash of '
         '(pair, matrix)')
 ASSUMES = ['PROVED between the Coq models: clustering_coef wu/bu wd/bd bd/bu wd/wu, transitivity likewise, strengths/degrees, '
            'in/out-degree on symmetric input; distance_wei/distance_bin (D and hop counts), efficiency_wei/efficiency_bin global and '
            'local, assortativity_wei/assortativity_bin (flags 0-4) on 0/1 input; f(W)==f(binarize(W)) for degrees_*, assortativity_bin '
-           '(non-negative weights), density_und/dir, jdegree, edge_nei_overlap_bu/bd, findwalks, reachdist, distance_bin, efficiency_bin',
+           '(any weights), density_und/dir, jdegree, edge_nei_overlap_bu/bd, findwalks, reachdist, distance_bin, efficiency_bin',
            'TESTED ONLY (differential, models belong to C08): betweenness_wei/bin, edge_betweenness_wei/bin on 0/1 input; findpaths raises '
            '(known finding)',
            'the integer-input models (distance_bin, efficiency_bin, findwalks, reachdist) are fed 8*W for weights k/8',
@@ -135,10 +136,53 @@ def cmp_ignore_model(kind, m, impl):
     raise ValueError(kind)
 
 
+def bfs_dist(adj, nodes):
+    """hop distances inside the subgraph induced by `nodes` (list); dict (a, b) -> int, missing = unreachable"""
+    d = {}
+    for s_ in nodes:
+        seen = {s_: 0}; q = [s_]
+        while q:
+            x = q.pop(0)
+            for y in nodes:
+                if adj[x][y] and y not in seen:
+                    seen[y] = seen[x] + 1; q.append(y)
+        for t_, v in seen.items():
+            d[(s_, t_)] = v
+    return d
+
+
+def o_eff_global(A):
+    """mean over ordered pairs i != j of 1/d(i,j); None (nan) for n < 2"""
+    n = len(A)
+    if n * n - n == 0:
+        return None
+    adj = [[A[i][j] != 0 for j in range(n)] for i in range(n)]
+    d = bfs_dist(adj, list(range(n)))
+    return sum(1.0 / d[(i, j)] for i in range(n) for j in range(n) if i != j and (i, j) in d) / (n * n - n)
+
+
+def o_eff_local(A, power):
+    """E_u = sum_{i != j in N(u)} a_i a_j (d_N(i,j)^-p + d_N(j,i)^-p) / 2 / ((sum a)^2 - sum a^2), a_i = A[u,i] + A[i,u],
+    d_N = distances inside the subgraph induced by the neighbours N(u); p = 1 (binary / Wang et al.) or 1/3 ('original')"""
+    n = len(A)
+    adj = [[A[i][j] != 0 for j in range(n)] for i in range(n)]
+    E = []
+    for u in range(n):
+        N = [v for v in range(n) if adj[u][v] or adj[v][u]]
+        a = {v: int(adj[u][v]) + int(adj[v][u]) for v in N}
+        d = bfs_dist(adj, N)
+        f = lambda i, j: (float(d[(i, j)]) ** (-power)) if (i, j) in d else 0.0
+        numer = sum(a[i] * a[j] * (f(i, j) + f(j, i)) for i in N for j in N if i != j) / 2.0
+        denom = sum(a.values()) ** 2 - sum(x * x for x in a.values())
+        E.append(numer / denom if numer != 0 else 0.0)
+    return E
+
+
 class Pairs:
     def __init__(self, ctx, bct):
         self.ctx, self.bct = ctx, bct
         self.lines, self.pend = [], []
+        self.nbin = 0
 
     def pair(self, key, W, f, g, family):
         """direct oracle of C10: the two public functions must return the same on W"""
@@ -242,8 +286,8 @@ class Pairs:
             add('edge_nei_overlap_bu', 'enov', 'enov %s 1' % Q, lambda M: tuple(bct.edge_nei_overlap_bu(M)), (ZeroDivisionError,))
 
     def ignore_negative(self, W, directed, family):
-        """assortativity_bin on a matrix with NEGATIVE weights: the docstring says all weights are ignored, the code selects
-        edges by `CIJ > 0` (C10_assortativity_bin_ignores_weights_refuted); key kept apart from the non-negative clause"""
+        """assortativity_bin on a matrix with NEGATIVE weights: all weights are ignored (C10_assortativity_bin_ignores_weights;
+        the code selected edges by `CIJ > 0` before the repair found by this stream)"""
         bct = self.bct
         ctx = self.ctx
         A = G9.npm(W); Bn = (A != 0).astype(float)
@@ -286,14 +330,48 @@ class Pairs:
                   lambda M: tuple(bct.edge_betweenness_bin(M)), family)
         self.pair('efficiency_wei/efficiency_bin:global', A, bct.efficiency_wei, bct.efficiency_bin, family)
         self.pair('efficiency_wei/efficiency_bin:local', A, lambda M: bct.efficiency_wei(M, True), lambda M: bct.efficiency_bin(M, True), family)
+        self.pair("efficiency_wei['global']/efficiency_bin:global", A, lambda M: bct.efficiency_wei(M, 'global'), lambda M: bct.efficiency_bin(M, False), family)
+        self.pair("efficiency_wei['local']/efficiency_bin:local", A, lambda M: bct.efficiency_wei(M, 'local'), lambda M: bct.efficiency_bin(M, True), family)
+        self.efficiency_spellings(A, family)
         s = self.pair('strengths_dir/degrees_dir', A, bct.strengths_dir, lambda M: bct.degrees_dir(M)[2], family)
         if s is not None:
             self.model('strengths_dir', 'deg ' + enc_mat(A, enc_q) + ' 5', {'fn': 'strengths_dir', 'W': G9.strs(A)}, s)
-        if self.ctx.evaluations % 2 == 0:
+        self.nbin += 1
+        if self.nbin % 3 != 0:
             und = all(A[i][j] == A[j][i] for i in range(len(A)) for j in range(len(A)))
             self.corr_binary(A, not und)
-            if und and self.ctx.evaluations % 4 == 0:
+            if und and self.nbin % 4 == 0:
                 self.corr_binary(A, True)          # the directed flags on a symmetric matrix as well
+
+    def efficiency_spellings(self, A, family):
+        """0/1 input: every documented spelling of `local` (efficiency_wei: False, 'global', True, 'local', 'original';
+        efficiency_bin: False, True) -- shape (scalar / vector of length n) and value against the brute-force definition,
+        hence wei == bin for each pair of corresponding spellings"""
+        ctx, bct = self.ctx, self.bct
+        n = len(A); M = G9.npm(A)
+        og, ol = o_eff_global(A), o_eff_local(A, 1.0)
+        calls = [('efficiency_wei', bct.efficiency_wei, False, 'g'), ('efficiency_wei', bct.efficiency_wei, 'global', 'g'),
+                 ('efficiency_wei', bct.efficiency_wei, True, 'l'), ('efficiency_wei', bct.efficiency_wei, 'local', 'l'),
+                 ('efficiency_bin', bct.efficiency_bin, False, 'g'), ('efficiency_bin', bct.efficiency_bin, True, 'l')]
+        if ctx.evaluations % 3 == 0:
+            calls.append(('efficiency_wei', bct.efficiency_wei, 'original', 'o'))
+        for fn, f, sp, kind in calls:
+            key = '%s[local=%r]' % (fn, sp)
+            case = {'pair': key, 'W': G9.strs(A)}
+            ctx.case(case, nontrivial=any(x != 0 for row in A for x in row)); ctx.count('spelling:' + key); ctx.count('family:' + family)
+            try:
+                with np.errstate(all='ignore'):
+                    r = call(f, M.copy(), sp)
+            except Exception as e:
+                ctx.fail(key + ':raises', repr(e), case); continue
+            r = np.asarray(r, dtype=float)
+            if kind == 'g':
+                ok = r.ndim == 0 and ((og is None and np.isnan(r)) or (og is not None and np.isfinite(r) and abs(float(r) - og) <= TOL * max(1.0, abs(og))))
+                ctx.check(ok, key + ':global_value', 'expected the global efficiency (scalar) %r, got %r' % (og, r.tolist()), case)
+            else:
+                want = ol if kind == 'l' else o_eff_local(A, 1.0 / 3.0)
+                ok = r.shape == (n,) and all(np.isfinite(g) and abs(g - e) <= TOL * max(1.0, abs(e)) for e, g in zip(want, r))
+                ctx.check(ok, key + ':local_value', 'expected the local efficiency vector %r, got %r' % (want, r.tolist()), case)
 
     def binary_und(self, A, family):
         bct = self.bct
@@ -390,6 +468,9 @@ def run(ctx):
             if t % 4 == 1:
                 G9.isolate(r, W)
             P.symmetric(W, 'weighted_sym'); P.symmetric(A, 'binary_sym')
+            # symmetric weights of BOTH signs (cuberoot keeps the sign; degrees count every nonzero entry)
+            Wsg = [[(-x if (min(i, j) * 5 + max(i, j) * 3 + t) % 3 == 0 else x) for j, x in enumerate(row)] for i, row in enumerate(W)]
+            P.symmetric(Wsg, 'signed_sym')
             Tf, kind = G9.triangle_free(r, n, G9.cube_w if t % 2 else None)
             P.symmetric(Tf, 'trianglefree_' + kind)
             if not t % 2:
@@ -400,14 +481,22 @@ def run(ctx):
             P.ignore_weights(Wu, False, 'weighted_und'); P.ignore_weights(Wd, True, 'weighted_dir')
             P.corr_weighted(Wu, False, False); P.corr_weighted(Wd, True, False)
             P.corr_ignore(Wu, False); P.corr_ignore(Wd, True)
-            if t % 4 == 0:          # negative weights: the clause assortativity_bin does NOT meet (known finding)
+            if t % 4 == 0:          # negative weights are ignored too
                 sg = lambda M, sym: [[(-x if ((i * 7 + j * 3 + t) % 5 == 0 or (sym and (j * 7 + i * 3 + t) % 5 == 0)) else x) for j, x in enumerate(row)] for i, row in enumerate(M)]
                 Wn = sg(Wu, True)
                 Wn = [[Wn[min(i, j)][max(i, j)] for j in range(n)] for i in range(n)]      # keep it symmetric
                 P.ignore_negative(Wn, False, 'negative_weights_und'); P.ignore_negative(sg(Wd, False), True, 'negative_weights_dir')
             P.corr_weighted(W, False, True)
             P.corr_weighted(G9.rand_dir(r, n, dens * 0.7, G9.cube_w), True, True)
-        # the witness of C10_assortativity_bin_ignores_weights_refuted, replayed on the implementation
+        # every sign pattern on a triangle and on K4 minus an edge, two magnitudes: directed = undirected on signed symmetric input
+        for n_, edges in ((3, [(0, 1), (1, 2), (0, 2)]), (4, [(0, 1), (1, 2), (0, 2), (2, 3), (1, 3)])):
+            for sg in itertools.product((1, -1), repeat=len(edges)):
+                for w in (F(1), F(27, 512)):
+                    Wx = [[F(0)] * n_ for _ in range(n_)]
+                    for (i, j), s_ in zip(edges, sg):
+                        Wx[i][j] = Wx[j][i] = s_ * w
+                    P.symmetric(Wx, 'signed_sym_exhaustive')
+        # the input that exposed the `> 0` edge list of assortativity_bin (repaired)
         P.ignore_negative([[F(0), F(-2), F(1), F(0)], [F(-2), F(0), F(1), F(0)], [F(1), F(1), F(0), F(1)], [F(0), F(0), F(1), F(0)]], False, 'coq_witness')
         # exhaustive tiny weighted for the ignores clause
         vals = [F(0), F(3, 8), F(5, 2)]
